@@ -149,6 +149,9 @@ func (f *FlowMod) UnmarshalBinary(data []byte) error {
 
 	for n < int(f.Header.Length) {
 		instr := DecodeInstr(data[n:])
+		if instr.Len() == 0 {
+			break
+		}
 		f.Instructions = append(f.Instructions, instr)
 		n += int(instr.Len())
 	}
